@@ -55,6 +55,20 @@ def three_artic_cycle(b, name):
     return chrom
 
 
+def ring(b, name, draw):
+    """A component that is biconnected as a whole (circular chrM with an allele, a lone bubble, two linked segments): it has no
+    articulation point at all."""
+    chrom = {"name": name, "nodes": [], "ref": [], "haps": [], "len": 0, "shape": "ring", "bubbles": 0, "features": []}
+    k = draw(st.integers(2, 4))
+    rs = [b.add_ref(chrom) for _ in range(k)]
+    for x, y in zip(rs, rs[1:]):
+        b.link(x, "+", y, "+")
+    if k >= 3:
+        b.link(rs[0], "+", rs[-1], "+") if draw(st.booleans()) else b.link(rs[-1], "+", rs[0], "+")
+    b.chroms.append(chrom)
+    return chrom
+
+
 @st.composite
 def strategy_(draw, tier):
     rnd = random.Random(draw(st.integers(0, 2**30)))
@@ -63,12 +77,14 @@ def strategy_(draw, tier):
     names = draw(st.permutations(["chr1", "chr2", "chrX", "chr10_alt", "chrM", "chr2.mat", "chr2.pat", "complete"]))[:nchrom]
     plans = []
     for i, name in enumerate(names):
-        plan = draw(st.sampled_from(["good", "tip_scaffold", "tip_bubble", "3artic", "join"]))
+        plan = draw(st.sampled_from(["good", "tip_scaffold", "tip_bubble", "3artic", "join", "ring"]))
         if i == 0:
             plan = "good"
         plans.append(plan)
         if plan == "3artic":
             three_artic_cycle(b, name)
+        elif plan == "ring":
+            ring(b, name, draw)
         elif plan == "good":
             # also chromosomes of a single segment (no bubble at all)
             b.chain(name, draw(st.sampled_from([0, 2, 3, 4, 5])))
@@ -131,6 +147,10 @@ def classify(case):
         elif dec["shape"] == "single" or (dec["shape"] == "chain" and dec["oriented"] and dec["monotone"]
                                           and len(dec["scaffold_sn"]) == 1):
             status[name] = "good"
+        elif dec["shape"] == "noartic" and len(comp) >= 2:
+            # biconnected as a whole: whether that is "a chain of one bubble" or "not a chain" the statement leaves open;
+            # what it does not leave open is that the command completes and the other chromosomes are untouched
+            status[name] = "ring"
         else:
             status[name] = "unclaimed"
     status["_why"] = why
@@ -165,6 +185,17 @@ def run_case(case):
                    order, [c for c in order if status[c] == "bad"], res)
         res2, files2 = ordergfa.run_order(d, case["gfa"], ",".join(order2), case["by_chrom"], sub="o2", via=case.get("via", "api"))
         core.check(res2[0] == "ok", "order_gfa on the chain-shaped chromosomes only (%s) failed: %s", order2, res2)
+        rings = sorted(n for n, s_ in status.items() if s_ == "ring")
+        if rings:
+            # requested last and with --by-chrom, so that neither its files nor its BO numbers can touch the others
+            r4, files4 = ordergfa.run_order(d, case["gfa"], ",".join(order2 + rings[:1]), True, sub="o4", via=case.get("via", "api"))
+            core.check(r4[0] == "ok", "order_gfa with a component without any articulation point (%s) last in the request did not "
+                       "complete normally: %s", rings[0], r4)
+            r5, files5 = ordergfa.run_order(d, case["gfa"], ",".join(order2), True, sub="o5", via=case.get("via", "api"))
+            core.check(r5[0] == "ok", "order_gfa --by-chrom on the chain-shaped chromosomes only (%s) failed: %s", order2, r5)
+            for fn, content in files5.items():
+                core.check(files4.get(fn) == content, "%s changes when the component %s (no articulation point) is requested after it",
+                           fn, rings[0])
         if bad and case["order_seed"] % 2 == 0:
             # only components that cannot be ordered are requested: reported and skipped, nothing written, normal completion
             only_bad = [c for c in order if status[c] == "bad"]
@@ -184,6 +215,8 @@ def run_case(case):
             raise core.Violation("%s differs from the run without the non-chain chromosomes (order %s vs %s); first difference at line %d: %r vs %r"
                                  % (name, order, order2, k + 1, a[k] if k < len(a) else None, b_[k] if k < len(b_) else None))
     cl = ["by_chrom" if case["by_chrom"] else "complete", "via:" + case.get("via", "api")] + (["rerun_into_same_outdir"] if rerun else [])
+    if rings:
+        cl.append("component_without_articulation_point_requested")
     pos = [i for i, c in enumerate(order) if status[c] == "bad"]
     nontrivial = any(i < len(order) - 1 for i in pos)
     for c in order:
